@@ -246,7 +246,7 @@ def run(ctx):
                 ctx.violation('construction: alpha_c %s does not describe the same function as alpha=%s c=%s'
                               % (io['alpha_c'], io['alpha'], io['c']),
                               {'stream': 'round', 'case': c, 'observed': io, 'model': mo})
-    if (not ctx.lean.ok or ctx.disagreements) and not ctx.violations and not ctx.known_hits:
+    if (not ctx.lean.ok or ctx.disagreements) and not ctx.violations:
         common.broken_report(ctx, 'exact rational reference found no failing input among %d cases' % ctx.evaluations)
     return ctx.finish(
         level='proof',
